@@ -15,7 +15,7 @@ import types
 import numpy as np
 import z3
 
-from symx.core import PI_F, TWOPI_F, SBool, SInt, SReal, Unsupported, assume, explore, mfloat, mval, real, refute, rv
+from symx.core import PI_F, TWOPI_F, SBool, SInt, SReal, Unsupported, Verdict, _real_term, assume, cur, explore, free_vars, mfloat, mval, real, refute, rv, solve
 from symx.runner import Ob
 from symx.stubs import shadow
 
@@ -28,8 +28,12 @@ TECHNIQUE = ("the real Sensor.collectObservations/attemptObservation/canSlew/del
              "exclusion, Sun cone, Earth limb, site darkness, radar cross-section root) is a z3 variable per (sensor, target) handed in by "
              "module-global shadowing; all paths are explored by re-execution; per path z3 proves that the returned Observation / "
              "MissedObservation objects, boresight and time_last_tasked agree with an independent conjunction over the same primitives "
-             "(unsat = for every value of the primitives and parameters); counterexamples are replayed on the float code")
-FLOAT_SEMANTICS = "exact real arithmetic over the primitives (comparisons of primitives with limits; two products: slew_rate*(t - t_last), rcs^(1/4)*aux)"
+             "(unsat = for every value of the primitives and parameters); counterexamples are replayed on the float code.  vismag-* obligations: the "
+             "limiting-magnitude step of Optical.isVisible is not a primitive there - the real calculatePhaseAngle -> subtendedAngle and "
+             "apparentVisualMagnitude run on symbolic Sun / target / sensor position vectors and the oracle decides the constraint from those "
+             "positions alone (cosine of the angle at the target between the directions to the Sun and to the sensor against the limit's)")
+FLOAT_SEMANTICS = ("exact real arithmetic over the primitives (comparisons of primitives with limits; two products: slew_rate*(t - t_last), rcs^(1/4)*aux); "
+                   "vismag-*: exact real arithmetic over the position vectors with sqrt / arccos / phase-function / log10 contracts")
 ENCODED = [
     "resonaate.sensors.sensor_base:Sensor.collectObservations",
     "resonaate.sensors.sensor_base:Sensor.attemptObservation",
@@ -40,6 +44,9 @@ ENCODED = [
     "resonaate.sensors.radar:Radar.maximumRangeTo",
     "resonaate.sensors.advanced_radar:AdvRadar",
     "resonaate.sensors.optical:Optical.isVisible",
+    "resonaate.physics.sensor_utils:calculatePhaseAngle",
+    "resonaate.physics.maths:subtendedAngle",
+    "resonaate.physics.sensor_utils:apparentVisualMagnitude",
     "resonaate.parallel.tasking_execution:asyncExecuteTasking._function",
     "resonaate.tasking.predictions:predictObservation",
     "resonaate.physics.measurements:Measurement.calculateMeasurement",
@@ -61,6 +68,12 @@ BOUNDS = {
     "parameters": "any az mask in [0,2pi]^2 (wrapping or not), el mask -pi/2 <= el0 <= el1 <= pi/2, 0 <= minimum_range <= maximum_range (thorough: also "
                   "None), slew rate >= 0, any t_last <= t_now, any limiting magnitude, radar range factor >= 0, any prior boresight",
     "primitives": "any range > 0, azimuth in [0,2pi), elevation in [-pi/2,pi/2], slew angle in [0,pi], any truth values / reals for the others",
+    "vismag-* (limiting magnitude on real geometry)": "optical, ground and space hosts, full-sky masks, no minimum range; any Sun / target / sensor positions with "
+                                                     "Sun != target != sensor and phase angle < pi; any area > 0 and reflectivity > 0; relative velocity of "
+                                                     "target and sensor zero; any limiting magnitude that the reference target reaches at some phase angle in "
+                                                     "(0, pi) (given as ulim = cosine of that phase angle, -1 < ulim < 1); the limit is parametrised against one "
+                                                     "target per scene: the primary (collect, 0 background), the single background target (collect, primary's "
+                                                     "magnitude a free variable) or the estimate (predict); quick: 3 of the 6 host/scene combinations",
     "epochs": "O5 measurement epoch: four concrete instants (incl. non-zero seconds); everything else does not depend on the epoch value",
 }
 OUTSIDE = [
@@ -71,7 +84,12 @@ OUTSIDE = [
     "completeness for background targets (a visible background target in the FoV is not required to be reported)",
     "the rows written to the observations / missed_observations tables (C09)",
     "el_mask given in decreasing order (the config calls it order independent, Sensor.isVisible treats it as [low, high]); assumed el0 <= el1",
-    "Optical.isVisible hands apparentVisualMagnitude the norm of the 6-d state difference as range (position+velocity); numeric effect ~1e-4 mag, not checked",
+    "Optical.isVisible hands apparentVisualMagnitude the norm of the 6-d state difference as range (position+velocity); numeric effect ~1e-4 mag, not checked "
+    "(vismag-* assume zero relative velocity, where the two coincide)",
+    "vismag-*: the numeric form of the phase function and of the magnitude formula: the proof uses only that the magnitude of a given target at a given range grows "
+    "strictly with the phase angle (contracts below); a change that shifts or rescales the magnitude (wrong constant, offset on the limit) is seen by "
+    "collect-/predict-optical-* through the free magnitude variable, here it can end in a candidate that does not reproduce (reported as harness error, never as "
+    "a pass); limits brighter than the reference target at phase angle 0; phase angle exactly pi (log10 of 0)",
     "more than 2 background targets / more than 2 tasked sensors per job",
 ]
 ASSUMPTIONS = [
@@ -81,7 +99,19 @@ ASSUMPTIONS = [
     "lineOfSight, FieldOfView.inFieldOfView (stub FieldOfView subclass keyed by (pointing, target)), subtendedAngle (slew angle, 0 when both "
     "arguments are the same direction), calculateIncidentSolarFlux, calculatePhaseAngle, lambertianPhaseFunction, apparentVisualMagnitude, "
     "checkGalacticExclusionZone, checkSpaceSensorLightingConditions, checkSpaceSensorEarthLimbObscuration, checkGroundSensorLightingConditions, "
-    "Sun.getPosition, scipy norm (sensor_base, optical) -> free variables per (sensor, target) / per sensor",
+    "Sun.getPosition, scipy norm (sensor_base, optical) -> free variables per (sensor, target) / per sensor; the epoch Sun.getPosition is asked for is recorded "
+    "and must be the host's Julian date",
+    "vismag-* scenes, reference target only: calculatePhaseAngle / subtendedAngle / apparentVisualMagnitude / scipy norm are NOT stubbed; numpy arccos -> engine "
+    "contract (angle in [0, pi] with the given cosine, strictly decreasing, functional); scipy norm -> non-negative root of the sum of squares; "
+    "lambertianPhaseFunction -> G(phi): functional, strictly decreasing on [0, pi], > 0 below pi, 0 at pi (true of 2((pi-phi)cos(phi)+sin(phi))/(3 pi^2): derivative "
+    "-2(pi-phi)sin(phi)/(3 pi^2)); numpy log10 (sensor_utils) -> functional, strictly increasing; domain conditions met on the way are assumed (divisors != 0, "
+    "log10 argument > 0, arccos argument in [-1, 1])",
+    "vismag-* limit: detectable_vismag := m_sun - 2.5 log10(A rho G(arccos(ulim)) / R^2) of the reference target (harness's own formula, R = distance of the position "
+    "vectors); oracle in the proof: (Sun - target).(sensor - target) >= ulim |Sun - target| |sensor - target|; oracle in the replay: the explicit Lambertian-sphere "
+    "magnitude at the phase angle computed from the positions, compared with the limit; the replay runs the unstubbed chain",
+    "vismag-* solver use: one query per conjunct of a goal, constraints cut to the conjunct's cone of influence (constraints sharing no variable, transitively, with "
+    "the goal are dropped: they are over other variables and satisfiable on a feasible path); counterexample search only: a candidate is first looked for with the "
+    "reference target at the origin, the sensor on the x axis and the Sun in the x-y plane, and is replayed like any other",
     "calculateRadarCrossSection -> q^4 with q >= 0 a variable and (q^4)**0.25 = q (non-negative fourth root)",
     "norm(pointing[:3]) = n > 0 with n^2 = |pointing[:3]|^2 (used only by the boresight obligation)",
     "numpy.random (measurements) -> zero draw in collectObservations runs, arbitrary symbolic draw in the noise-off runs",
@@ -96,7 +126,8 @@ LEVEL_TEXT = ("Bounded symbolic verification of the observation pipeline: for ev
               "gets exactly one of {observation, miss}, that a miss names a constraint that fails, that background targets never produce misses, "
               "and that boresight / time_last_tasked move iff the slew test passes.  Right level because the claim is control/data flow over "
               "many constraint combinations (a few hundred paths per sensor kind), which sampling geometries cannot cover.")
-LEVEL_NOTE = ("Primitives are free variables (their geometry is C14/C04); up to 2 background targets / 2 sensors; noise statistics, time bias events, "
+LEVEL_NOTE = ("Primitives are free variables (their geometry is C14/C04) except the limiting-magnitude step in the vismag-* obligations (phase angle from the "
+              "positions; phase function / log10 by monotonicity contracts); up to 2 background targets / 2 sensors; noise statistics, time bias events, "
               "database rows outside; replay answers most primitives with model values at the shadow points.")
 
 FINDING_BG_NOSLEW = "C02-background-without-slew"
@@ -265,13 +296,21 @@ def _host(tags):
 # the world: provider of all primitives, symbolic (z3 variables) or concrete (values of a counterexample)
 # ----------------------------------------------------------------------------------------------------------------------
 class World:
-    def __init__(self, values=None, realgeo=False, noise="zero"):
+    def __init__(self, values=None, realgeo=False, noise="zero", vischain=False):
         self.values = values  # None -> symbolic
+        self.vischain = vischain  # limiting-magnitude chain on real geometry (phase angle from the position vectors)
+        self.vmref = None  # vischain scenes: the target whose magnitude is computed from the positions (all others: free variables)
+        self.margins = []  # (lhs, rhs, scale) of the oracle's own comparisons that a robust counterexample keeps apart
+        try:
+            self.path = cur() if values is None else None
+        except RuntimeError:
+            self.path = None
         self.realgeo = realgeo  # replay level 1: real getRange/getAzimuth/getElevation/subtendedAngle on constructed vectors
         self.noise = noise
         self.names = {}  # name -> sort
         self.vecs = {}
         self.sez_calls = []
+        self.sun_jds = []  # every epoch the Sun position was asked for
         self.randn_calls = 0
         self.pre = []  # z3 preconditions on primitives (symbolic mode)
 
@@ -406,6 +445,7 @@ class World:
 
     def sunPosition(self, jd):
         self.sun_jd = jd
+        self.sun_jds.append(jd)
         return self.vec("sun", 3, {"S"})
 
     def calculateIncidentSolarFlux(self, vcs, tgt_pos, sun_pos):
@@ -453,6 +493,41 @@ class World:
             return Root4(q.t, {h, t})
         return float(self.values.get(f"q_{h}_{t}", 0.0)) ** 4
 
+    # -- limiting-magnitude chain on real geometry (vischain scenes) -------------------------------------
+    def norm_true(self, v, *a, **k):
+        """scipy norm -> non-negative root of the sum of squares (sqrt contract of the engine)."""
+        acc = SReal(0)
+        for x in np.asarray(v, dtype=object).ravel():
+            acc = acc + x * x
+        return acc.sqrt()
+
+    def lambert(self, phi):
+        """lambertianPhaseFunction -> G(phi): a function of phi, strictly decreasing on [0, pi], positive below pi, zero at pi."""
+        p = cur()
+        a = _real_term(phi)
+        if a is None:
+            raise Unsupported("phase function asked of something that is not a scalar")
+        g = p.new("lambert")
+        p.add_domain(z3.And(a >= 0, a <= PI))
+        p.assume(z3.And(g >= 0, (a < PI) == (g > 0)))
+        for g2, a2 in p.apps.setdefault("lambert", []):
+            p.assume(z3.And((a < a2) == (g > g2), (a == a2) == (g == g2)))
+        p.apps["lambert"].append((g, a))
+        return SReal(g)
+
+    def log10(self, x):
+        """numpy log10 -> a strictly increasing function on the positive reals."""
+        p = cur()
+        t = _real_term(x)
+        if t is None:
+            raise Unsupported("log10 of something that is not a scalar")
+        l = p.new("log10")
+        p.add_domain(t > 0)
+        for l2, t2 in p.apps.setdefault("log10", []):
+            p.assume(z3.And((t < t2) == (l < l2), (t == t2) == (l == l2)))
+        p.apps["log10"].append((l, t))
+        return SReal(l)
+
     # -- noise -------------------------------------------------------------------------------------------
     def randn(self, *shape):
         self.randn_calls += 1
@@ -498,6 +573,8 @@ class _Shadows:
         class RandomStub:
             randn = staticmethod(W.randn)
 
+        from resonaate.physics import sensor_utils as SU
+
         geo = {} if (not W.sym and W.realgeo) else {"getRange": W.getRange, "getAzimuth": W.getAzimuth, "getElevation": W.getElevation}
         slew = {} if (not W.sym and W.realgeo) else {"subtendedAngle": W.subtendedAngle}
         sbn = {"norm": W.norm} if W.sym else {}
@@ -506,12 +583,13 @@ class _Shadows:
             shadow(PR, getSlantRangeVector=W.getSlantRangeVector),
             shadow(MS, getSlantRangeVector=W.getSlantRangeVector, random=RandomStub, getRangeRate=W.getRangeRate, **geo),
             shadow(RD, calculateRadarCrossSection=W.calculateRadarCrossSection, **({"getRange": geo["getRange"]} if geo else {})),
-            shadow(OP, Sun=SunStub, calculateIncidentSolarFlux=W.calculateIncidentSolarFlux, calculatePhaseAngle=W.calculatePhaseAngle,
-                   lambertianPhaseFunction=W.lambertianPhaseFunction, apparentVisualMagnitude=W.apparentVisualMagnitude,
+            shadow(OP, Sun=SunStub, calculateIncidentSolarFlux=W.calculateIncidentSolarFlux,
                    checkGalacticExclusionZone=W.checkGalacticExclusionZone, checkSpaceSensorLightingConditions=W.checkSpaceSensorLightingConditions,
                    checkSpaceSensorEarthLimbObscuration=W.checkSpaceSensorEarthLimbObscuration,
-                   checkGroundSensorLightingConditions=W.checkGroundSensorLightingConditions, **({"norm": W.norm} if W.sym else {})),
+                   checkGroundSensorLightingConditions=W.checkGroundSensorLightingConditions, **self._magnitude_chain(W)),
         ]
+        if W.vischain and W.sym:
+            self.ctx.append(shadow(SU, log10=W.log10))
         if with_async:
             from resonaate.parallel import tasking_execution as TE
 
@@ -521,6 +599,39 @@ class _Shadows:
                     return x
 
             self.ctx.append(shadow(TE, ray=RayStub))
+
+    @staticmethod
+    def _magnitude_chain(W):
+        """Names of resonaate.sensors.optical that make up the limiting-magnitude step."""
+        free = dict(calculatePhaseAngle=W.calculatePhaseAngle, lambertianPhaseFunction=W.lambertianPhaseFunction,
+                    apparentVisualMagnitude=W.apparentVisualMagnitude, **({"norm": W.norm} if W.sym else {}))
+        if not W.vischain:  # the apparent magnitude is one free variable per (sensor, target)
+            return free
+        # vischain scenes: for the reference target the real calculatePhaseAngle -> subtendedAngle and apparentVisualMagnitude run on the
+        # positions (symbolic runs: phase function and log10 by contract; replay: all real); other targets keep the free variables
+        from resonaate.sensors import optical as OP
+
+        genuine = {n: getattr(OP, n) for n in ("calculatePhaseAngle", "lambertianPhaseFunction", "apparentVisualMagnitude", "norm")}
+        ref = lambda *args: W.vmref is not None and W.vmref in _tags(*args)  # noqa: E731
+
+        def phase_angle(emitter, reflector, observer):
+            return genuine["calculatePhaseAngle"](emitter, reflector, observer) if ref(emitter, reflector, observer) else free["calculatePhaseAngle"](emitter, reflector, observer)
+
+        def phase_function(phi):
+            if _tags(phi):  # a free phase-angle variable of another target
+                return free["lambertianPhaseFunction"](phi)
+            return W.lambert(phi) if W.sym else genuine["lambertianPhaseFunction"](phi)
+
+        def magnitude(vcs, refl, phase_fn, rso_range):
+            f = genuine if ref(vcs, refl) else free
+            return f["apparentVisualMagnitude"](vcs, refl, phase_fn, rso_range)
+
+        def norm_(v, *a, **k):
+            if not W.sym:
+                return genuine["norm"](v, *a, **k)
+            return W.norm_true(v) if ref(v) else W.norm(v, *a, **k)
+
+        return dict(calculatePhaseAngle=phase_angle, lambertianPhaseFunction=phase_function, apparentVisualMagnitude=magnitude, norm=norm_)
 
     def __enter__(self):
         for c in self.ctx:
@@ -539,8 +650,11 @@ class _Shadows:
 class Spec:
     """One sensor of the scene (what kind, which parameters are None / reduced)."""
 
-    def __init__(self, kind, space, rmin=True, rmax=True, calc_bg=True, reduced=False):
+    def __init__(self, kind, space, rmin=True, rmax=True, calc_bg=True, reduced=False, vischain=False):
         self.kind, self.space, self.rmin, self.rmax, self.calc_bg, self.reduced = kind, space, rmin, rmax, calc_bg, reduced
+        # optical: limiting magnitude decided on the real Sun/target/sensor geometry; "primary" / "background" = which target of a
+        # collectObservations scene the limit is parametrised against (predictObservation: the estimate)
+        self.vischain = vischain
 
     @property
     def optical(self):
@@ -628,7 +742,12 @@ class Scene:
             s.time_last_tasked = wrap(p["tlast"])
             s.boresight = W.vec(f"bore_{h}", 3, {"bore", h})
             p["bore"] = s.boresight
-            if sp.optical:
+            if sp.optical and sp.vischain:
+                # the limiting magnitude is given as the magnitude the reference target would have at the phase angle arccos(ulim)
+                # (a re-parametrisation of the input: for given area, reflectivity and range the two are in one-to-one correspondence)
+                p["ulim"] = _raw(W.real(f"ulim_{h}", lo=-1, hi=1, lo_strict=True, hi_strict=True))
+                p["vmlim"] = p["vmref"] = None  # set by arm_limits()
+            elif sp.optical:
                 p["vmlim"] = _raw(W.real(f"vmlim_{h}"))
                 s.detectable_vismag = wrap(p["vmlim"])
             else:
@@ -659,11 +778,79 @@ class Scene:
                 W.declare(p["h"], t, sp)
         self.tag_of_id = {t.simulation_id: t.tag for t in self.targets}
         self.k_of_sid = {h.simulation_id: k for k, h in enumerate(self.hosts)}
+        if W.sym and W.vischain:
+            for sp, host in zip(specs, self.hosts):
+                if not sp.vischain:
+                    continue
+                for t in self.targets + [est]:
+                    cs = [_raw(t.reflectivity) > 0] + [_raw(t.eci_state[i]) == _raw(host.eci_state[i]) for i in (3, 4, 5)]
+                    W.pre += cs
+                    assume(*cs)
+
+    def arm_limits(self, mode):
+        """vischain sensors: detectable_vismag := magnitude of the reference target (primary truth / estimate) at phase angle arccos(ulim),
+        by the harness's own Lambertian-sphere formula.  Symbolic runs: inside the shadows (arccos / phase function / log10 contracts)."""
+        W = self.W
+        for sp, p, s, host in zip(self.specs, self.par, self.sensors, self.hosts):
+            if not (sp.optical and sp.vischain):
+                continue
+            ref = "E" if mode == "predict" else ("T1" if sp.vischain == "background" else "T0")
+            tgt = self.estimate if ref == "E" else self.targets[int(ref[1:])]
+            d = [tgt.eci_state[i] - host.eci_state[i] for i in range(3)]
+            if W.sym:
+                rng = W.norm_true(d)
+                lim = lambert_sphere_magnitude(tgt.visual_cross_section, tgt.reflectivity, W.lambert(SReal(p["ulim"]).arccos()), rng, W.log10)
+            else:
+                rng = math.sqrt(sum(float(x) ** 2 for x in d))
+                lim = lambert_sphere_magnitude(float(tgt.visual_cross_section), float(tgt.reflectivity), lambert_phase_function(math.acos(p["ulim"])), rng, math.log10)
+            s.detectable_vismag = lim
+            p["vmlim"], p["vmref"] = _raw(lim), ref
+            W.vmref = ref
 
 
 # ----------------------------------------------------------------------------------------------------------------------
 # the oracle: documented constraint semantics over the primitives
 # ----------------------------------------------------------------------------------------------------------------------
+SUN_MAGNITUDE = -26.74  # apparent visual magnitude of the Sun
+
+
+def lambert_phase_function(phi):
+    """Diffuse (Lambertian) sphere, fraction of the incident light reflected towards an observer at phase angle phi."""
+    return 2.0 * ((math.pi - phi) * math.cos(phi) + math.sin(phi)) / (3.0 * math.pi ** 2)
+
+
+def lambert_sphere_magnitude(area_m2, reflectivity, phase_fn, range_km, log10):
+    """m = m_sun - 2.5 log10(A rho F / R^2), area in km^2."""
+    return SUN_MAGNITUDE - 2.5 * log10(area_m2 * 1e-6 * reflectivity * phase_fn / (range_km * range_km))
+
+
+def magnitude_within_limit(W, p, t):
+    """Limiting-magnitude constraint by the Sun / target / sensor positions alone.
+
+    Replay (floats): phase angle at the target between the directions to the Sun and to the sensor, Lambertian-sphere magnitude at the true
+    range, compared with the limit.  Proof (z3 terms): the magnitude of a given target at a given range grows strictly with the phase angle,
+    so 'not fainter than the magnitude at phase angle arccos(ulim)' is cos(phase angle) >= ulim, i.e. d1.d2 >= ulim |d1| |d2|."""
+    h = p["h"]
+    if p.get("vmref") is None:
+        raise Unsupported(f"limiting magnitude of {h} is not parametrised in this scene")
+    if p["vmref"] != t:  # another target of the scene: its magnitude is the free variable the code was given for it
+        return W.P(f"vismag_{h}_{t}") <= p["vmlim"]
+    sun, tp, hp = W.vec("sun", 3, {"S"}), W.vecs[f"eci_{t}"], W.vecs[f"eci_{h}"]
+    d1 = [sun[i] - tp[i] for i in range(3)]
+    d2 = [hp[i] - tp[i] for i in range(3)]
+    if W.sym:
+        dot = d1[0] * d2[0] + d1[1] * d2[1] + d1[2] * d2[2]
+        nn = W.norm_true(d1) * W.norm_true(d2)
+        W.margins.append((_raw(dot), _raw(SReal(p["ulim"]) * nn), _raw(nn)))
+        return _raw(dot >= SReal(p["ulim"]) * nn)
+    n1, n2 = (math.sqrt(sum(float(x) ** 2 for x in d)) for d in (d1, d2))
+    if n1 == 0 or n2 == 0:
+        return False
+    phi = math.acos(max(-1.0, min(1.0, sum(float(a) * float(b) for a, b in zip(d1, d2)) / (n1 * n2))))
+    k = float(W.P(f"vcs_{t}")) * 1e-6 * float(W.P(f"refl_{t}")) * lambert_phase_function(phi) / (n2 * n2)
+    return k > 0 and SUN_MAGNITUDE - 2.5 * math.log10(k) <= p["vmlim"]
+
+
 def conjuncts(W, sp, p, t):
     """Explanation -> 'this constraint holds' for target tag t seen from sensor p['h'] (z3 terms or python bools).
 
@@ -688,7 +875,7 @@ def conjuncts(W, sp, p, t):
     c[X.AZIMUTH_MASK] = z3.If(_zb(nowrap), _zb(inside), _zb(outside)) if any(_isz(x) for x in (nowrap, inside, outside)) else (inside if nowrap else outside)
     if sp.optical:
         c[X.SOLAR_FLUX] = P(f"flux_{t}") > 0
-        c[X.VIZ_MAG] = P(f"vismag_{h}_{t}") <= p["vmlim"]
+        c[X.VIZ_MAG] = magnitude_within_limit(W, p, t) if sp.vischain else P(f"vismag_{h}_{t}") <= p["vmlim"]
         c[X.GALACTIC_EXCLUSION] = P(f"gal_{h}_{t}")
         if sp.space:
             c[X.SPACE_ILLUMINATION] = P(f"spl_{h}_{t}")
@@ -786,10 +973,16 @@ def outcome_goals(sc, k, obs, missed, boresight, tlt, check_state=True):
 
 
 def epoch_goal(W, sc):
-    """Every slant-range vector was computed from the right sensor state, a known target state, at the host's epoch."""
+    """Every slant-range vector was computed from the right sensor state, a known target state, at the host's epoch; the Sun position was
+    asked for the host's epoch."""
     ok = True
     for h, t, utc, n1, n2 in W.sez_calls:
         ok = ok and (utc == JD_DT) and n1 == 6 and n2 == 6 and not h.endswith("_swapped")
+    for jd in W.sun_jds:
+        try:
+            ok = ok and float(jd) == float(sc.jd)
+        except (TypeError, ValueError):
+            ok = False
     return ok
 
 
@@ -822,11 +1015,59 @@ def _robust(W, sc):
             else:
                 far(rng, z3.Real(f"q_{h}_{t}") * p["aux"])
                 cs.append(z3.And(z3.Real(f"q_{h}_{t}") < 1000, p["aux"] < 1000))
+        if sp.optical and sp.vischain:
+            # limiting-magnitude chain on real geometry: every cosine that went through arccos and the oracle's own stay 1e-3 away from the
+            # limit's; positions, area and reflectivity in ranges where doubles are comfortable
+            ul = p["ulim"]
+            for _a, u in (W.path.apps.get("arccos", []) if W.path is not None else []):
+                if not z3.eq(u, ul):
+                    far(u, ul)
+            for lhs, rhs, scale in W.margins:
+                cs.append(z3.Or(lhs - rhs > eps * scale, rhs - lhs > eps * scale))
+            cs.append(z3.And(ul > rv(-0.95), ul < rv(0.95)))
+            for t in tags:
+                cs.append(z3.And(z3.Real(f"vcs_{t}") >= rv(0.01), z3.Real(f"vcs_{t}") <= 1000, z3.Real(f"refl_{t}") >= rv(0.01), z3.Real(f"refl_{t}") <= 1))
+                dd = [z3.Real(f"eci_{t}_{i}") - z3.Real(f"eci_{h}_{i}") for i in range(3)]
+                ds = [z3.Real(f"sun_{i}") - z3.Real(f"eci_{t}_{i}") for i in range(3)]
+                cs.append(z3.And(sum(x * x for x in dd) >= 1, sum(x * x for x in ds) >= 1))
+            for nm, n in [("sun", 3), (f"eci_{h}", 3)] + [(f"eci_{t}", 3) for t in tags]:
+                cs += [z3.And(z3.Real(f"{nm}_{i}") >= -1e6, z3.Real(f"{nm}_{i}") <= 1e6) for i in range(n)]
         far(p["az0"], p["az1"])
         far(p["rate"] * (sc.tnow.t - p["tlast"]), z3.Real(f"delta_{h}_E"))
         cs.append(z3.And(z3.Real(f"delta_{h}_E") > eps, z3.Real(f"delta_{h}_E") < PI - eps, p["rate"] < 10, sc.tnow.t - p["tlast"] < 1e5,
                          sc.tnow.t < 1e6, sc.tnow.t > -1e6))
     return cs + _normfacts(sc)
+
+
+def _realism(W, sc):
+    """Counterexample search only, vischain scenes: facts that are true of the real arccos / Lambertian phase function / log10 on a region
+    (all cosines within 0.5 of zero and within 0.01 of the limit's), so that the solver's values of the contract variables are close to what
+    the float code computes and a decision taken with a margin in the model is taken the same way by the real code.
+      |arccos(u) - arccos(v)| <= 1.16 |u - v|                    for |u|, |v| <= 1/2      (1/sqrt(1 - 1/4) = 1.1547)
+      0.0231 <= F(phi) <= 0.1293, |F(phi) - F(psi)| <= 0.124 |phi - psi|   for phi, psi in [pi/3, 2 pi/3]  (|F'| = 2 (pi - phi) sin(phi) / (3 pi^2))
+      0.4342 (t2 - t) / t2 <= log10(t2) - log10(t) <= 0.4343 (t2 - t) / t   for 0 < t <= t2   (1/ln 10 = 0.43429...)"""
+    if W.path is None:
+        return []
+    cs = []
+    half, close = rv(0.5), rv(0.01)
+    ab = lambda x: z3.If(x >= 0, x, -x)  # noqa: E731
+    acs = W.path.apps.get("arccos", [])
+    for i, (a, u) in enumerate(acs):
+        cs.append(z3.And(u >= -half, u <= half))
+        for a2, u2 in acs[:i]:
+            cs.append(z3.And(ab(u - u2) <= close, ab(a - a2) <= rv(1.16) * ab(u - u2)))
+    lam = W.path.apps.get("lambert", [])
+    for i, (g, a) in enumerate(lam):
+        cs.append(z3.And(g >= rv(0.0231), g <= rv(0.1293)))
+        for g2, a2 in lam[:i]:
+            cs.append(ab(g - g2) <= rv(0.124) * ab(a - a2))
+    logs = W.path.apps.get("log10", [])
+    for i, (l, t) in enumerate(logs):
+        for l2, t2 in logs[:i]:
+            lo, hi = z3.If(t <= t2, t, t2), z3.If(t <= t2, t2, t)
+            dl = z3.If(t <= t2, l2 - l, l - l2)
+            cs.append(z3.And(lo > 0, dl * hi >= rv(0.4342) * (hi - lo), dl * lo <= rv(0.4343) * (hi - lo)))
+    return cs
 
 
 def _normfacts(sc):
@@ -863,14 +1104,77 @@ def _model_values(m, exprs, names, vecs):
     return vals
 
 
+def _cone(goal, cons):
+    """Cone of influence: the constraints connected with the goal through shared variables (transitively).  The rest is over other
+    variables and satisfiable on a feasible path, so dropping it changes no verdict."""
+    V = set(free_vars(goal))
+    cs = cons if (cons and isinstance(cons[0], tuple)) else [(c, free_vars(c)) for c in cons]  # (constraint, its variables) pairs are accepted
+    keep = [not fv for _, fv in cs]
+    changed = True
+    while changed:
+        changed = False
+        for i, (_, fv) in enumerate(cs):
+            if not keep[i] and fv & V:
+                keep[i] = True
+                V |= fv
+                changed = True
+    return [c for k, (c, _) in zip(keep, cs) if k]  # original order (z3's timing depends on it)
+
+
+class _MergedModel:
+    """Models of variable-disjoint components, looked up by the variables of the term asked for."""
+
+    def __init__(self, parts):
+        self.parts = parts  # [(variables, model)]
+
+    def eval(self, t, model_completion=True):
+        fv = free_vars(t)
+        for vs, m in self.parts:
+            if fv & vs:
+                return m.eval(t, model_completion=model_completion)
+        return self.parts[0][1].eval(t, model_completion=model_completion)
+
+
+def _solve_components(formulas, timeout_ms):
+    """Conjunction of formulas decided component by component (components share no variable): ('sat', merged model) / ('unsat', None) /
+    ('unknown', None)."""
+    todo = [(f, free_vars(f)) for f in formulas]
+    parts = []
+    while todo:
+        f, V = todo.pop()
+        comp, V = [f], set(V)
+        changed = True
+        while changed:
+            changed = False
+            rest = []
+            for g, fv in todo:
+                if fv & V:
+                    comp.append(g)
+                    V |= fv
+                    changed = True
+                else:
+                    rest.append((g, fv))
+            todo = rest
+        v = solve(comp, timeout_ms)
+        if v.status != "sat":
+            return v.status, None
+        parts.append((V, v.model))
+    return "sat", _MergedModel(parts)
+
+
 def _mk_inputs(W, sc, mode, goal, cons, extra=None):
     names = dict(W.names)
 
     def inputs(m):
         # prefer a counterexample that stays away from the comparison boundaries (robust in doubles)
-        for extra_cs in (_robust(W, sc), _normfacts(sc)):
+        rb = _robust(W, sc)
+        for extra_cs in (((rb + _realism(W, sc),) if W.vischain else ()) + (rb, _normfacts(sc)) + (([],) if W.vischain else ())):
             try:
-                v = refute(goal, list(cons) + extra_cs, 10000)
+                if W.vischain:  # the proof query was cut to the goal's cone of influence: complete the model component by component
+                    st, mm = _solve_components(list(cons) + extra_cs + [z3.Not(goal)], 6000)
+                    v = Verdict(st, mm)
+                else:
+                    v = refute(goal, list(cons) + extra_cs, 10000)
             except Exception:  # noqa: BLE001
                 continue
             if v.status == "sat":
@@ -886,8 +1190,8 @@ def _mk_inputs(W, sc, mode, goal, cons, extra=None):
 
 def _concrete_scene(d, realgeo):
     vals = dict(d["values"])
-    W = World(values=vals, realgeo=realgeo, noise="zero" if d["mode"] in ("collect", "async") else "draw")
     specs = [Spec(**s) for s in d["specs"]]
+    W = World(values=vals, realgeo=realgeo, noise="zero" if d["mode"] in ("collect", "async") else "draw", vischain=any(s.vischain for s in specs))
     sc = Scene(W, specs, d["nbg"])
     if realgeo:
         # prior boresight realising the slew angle delta against the (constructed) pointing direction
@@ -912,6 +1216,7 @@ def _run_mode(W, sc, d):
     mode = d["mode"] if isinstance(d, dict) else d
     if mode == "collect":
         with _Shadows(W):
+            sc.arm_limits("collect")
             obs, missed, bore, tlt = sc.sensors[0].collectObservations(sc.estimate.eci_state, sc.primary, list(sc.background))
         G = outcome_goals(sc, 0, obs, missed, bore, tlt)
         G["O1-epoch"] = epoch_goal(W, sc)
@@ -947,6 +1252,7 @@ def _run_mode(W, sc, d):
 
         sp, p, host, sensor = sc.specs[0], sc.par[0], sc.hosts[0], sc.sensors[0]
         with _Shadows(W):
+            sc.arm_limits("predict")
             out = predictObservation(host, sc.estimate)
         c = conjuncts(W, sp, p, "E")
         want = AND(slew_ok(W, p, sc.tnow), *c.values())
@@ -984,7 +1290,11 @@ def replay_scene(d):
         if bad:
             vals = d["values"]
             keep = {k: v for k, v in vals.items() if k.split("_")[0] in ("rng", "az", "el", "los", "infov", "delta", "rate", "tnow", "tlast", "rmin", "rmax", "az0", "az1",
-                                                                        "el0", "el1", "q", "aux", "flux", "vismag", "vmlim", "gal", "spl", "limb", "dark")}
+                                                                        "el0", "el1", "q", "aux", "flux", "vismag", "vmlim", "gal", "spl", "limb", "dark", "ulim", "sun", "vcs", "refl")
+                    or (k.startswith("eci_") and any(s.get("vischain") for s in d["specs"]))}
+            lim = [p.get("vmlim") for p in sc.par if p.get("ulim") is not None]
+            if lim:
+                keep["detectable_vismag (from ulim)"] = lim
             return True, {"level": level, "violated": bad, "reported": out, "primitives": keep, "specs": d["specs"]}
     return False, detail
 
@@ -996,16 +1306,45 @@ def _tag(r):
     return "".join("T" if x else "F" for x in r.path.decisions)
 
 
+def _geometry_pins(sc):
+    """Search restriction for counterexamples of vischain scenes (see o_scene): reference target at the origin (then: at x = 2), sensor on the
+    x axis, Sun in the x-y plane (the constraint depends on differences of positions only).  List of alternatives, tried in order."""
+    out = []
+    for x in (0, 2):  # second try: target off the origin (for code that divides by the target's distance from the origin)
+        cs = []
+        for p in sc.par:
+            if p.get("vmref") is None:
+                continue
+            h, t = p["h"], p["vmref"]
+            cs += [z3.Real(f"eci_{t}_0") == x] + [z3.Real(f"eci_{t}_{i}") == 0 for i in (1, 2)] + [z3.Real(f"eci_{h}_{i}") == 0 for i in (1, 2)] + [z3.Real("sun_2") == 0]
+        out.append(cs)
+    return out
+
+
+def _conjuncts_of(g):
+    """Top-level conjuncts of a z3 formula (syntactically true ones dropped)."""
+    out, stack = [], [g]
+    while stack:
+        e = stack.pop()
+        if z3.is_and(e):
+            stack.extend(reversed(e.children()))
+        elif not z3.is_true(e):
+            out.append(e)
+    return out or [z3.BoolVal(True)]
+
+
 def o_scene(rep, mode, specs, nbg, max_paths=20000, expect_reasons=None, need_bg_obs=True):
     state = {}
 
     def run():
-        W = World(noise="zero" if mode in ("collect", "async") else "draw")
+        W = World(noise="zero" if mode in ("collect", "async") else "draw", vischain=any(s.vischain for s in specs))
         sc = Scene(W, specs, nbg)
         G, out = _run_mode(W, sc, mode)
         return W, sc, G, out
 
-    res = explore(run, max_paths=max_paths, max_depth=400, branch_timeout_ms=10000)
+    # vischain scenes: branch feasibility questions over the position vectors are answered in milliseconds on the unchanged code; a short limit
+    # keeps a changed chain from eating the budget (no answer in time = both sides are explored, which is sound)
+    res = explore(run, max_paths=max_paths, max_depth=400, branch_timeout_ms=2500 if any(s.vischain for s in specs) else 10000)
     rep.note(f"{mode} {[(s.kind, 'space' if s.space else 'ground') for s in specs]} nbg={nbg}: paths={len(res)}")
     seen_reasons, n_obs_prim, n_obs_bg, n_noslew, n_pred = set(), 0, 0, 0, 0
     samples = {
@@ -1057,18 +1396,47 @@ def o_scene(rep, mode, specs, nbg, max_paths=20000, expect_reasons=None, need_bg
         if not active:
             trivial += 1
             continue
-        conj = z3.And(*active.values())
-        # known finding: the only thing wrong is an observation reported although the commanded pointing was out of slew reach
-        sl = [g for n, g in active.items() if n.split("@")[0] == "O1-slew-reach"]
-        regions = {FINDING_BG_NOSLEW: z3.And(z3.Not(z3.And(*sl)), *[g for n, g in active.items() if n.split("@")[0] != "O1-slew-reach"])} if sl else None
-        nv = len(rep.violations)
-        rep.prove(f"path[{tag}]", conj, cons, timeout_ms=20000, inputs=_mk_inputs(W, sc, mode, conj, cons, {"goals": sorted(active)}), replay=replay_scene,
-                  regions=regions, sample="; ".join(sorted({samples.get(n.split('@')[0], n) for n in active})))
-        if len(rep.violations) > nv:
-            det = rep.violations[-1].get("detail") or {}
-            bad = {n.split("@")[0] for n in (det.get("violated") or [])} or {n.split("@")[0] for n in active}
-            violated |= bad
-            rep.note(f"violation of {sorted(bad)} on path {tag}; these goal classes are not queried on further paths")
+        # scenes with the limiting-magnitude chain on real geometry carry non-linear path constraints: one query per conjunct of each goal
+        # class there (measured: the conjunction 10 s, the conjuncts one by one 0.02 s each)
+        if W.vischain:
+            groups = []
+            cons_fv = [(c, free_vars(c)) for c in cons]
+            for n, g in active.items():
+                parts = _conjuncts_of(g)
+                groups += [(f"path[{tag}]:{n}" + (f"#{i}" if len(parts) > 1 else ""), {n: c}) for i, c in enumerate(parts)]
+        else:
+            groups = [(f"path[{tag}]", active)]
+        for label, grp in groups:
+            grp = {n: g for n, g in grp.items() if n.split("@")[0] not in violated}
+            if not grp:
+                continue
+            conj = z3.And(*grp.values())
+            # known finding: the only thing wrong is an observation reported although the commanded pointing was out of slew reach
+            sl = [g for n, g in grp.items() if n.split("@")[0] == "O1-slew-reach"]
+            regions = {FINDING_BG_NOSLEW: z3.And(z3.Not(z3.And(*sl)), *[g for n, g in grp.items() if n.split("@")[0] != "O1-slew-reach"])} if sl else None
+            nv, ne = len(rep.violations), sum(1 for i in rep.items if i["verdict"] == "error")
+            use, full = cons, cons
+            if W.vischain:
+                use = _cone(conj, cons_fv)
+                if any(v.startswith("ulim_") for v in free_vars(conj)):
+                    # counterexample search only (never a proof): nlsat finds models of the 9-coordinate geometry slowly, so a candidate is
+                    # first looked for with the target at the origin of the coordinates, the sensor on the x axis and the Sun in the x-y plane;
+                    # only when that gives one are the pins kept (the candidate is replayed like any other); otherwise the unrestricted query decides
+                    for pins in _geometry_pins(sc):
+                        if refute(conj, use + pins, 5000).status == "sat":
+                            use, full = use + pins, list(cons) + pins
+                            break
+            rep.prove(label, conj, use, timeout_ms=20000, inputs=_mk_inputs(W, sc, mode, conj, full, {"goals": sorted(grp)}), replay=replay_scene,
+                      regions=regions, sample="; ".join(sorted({samples.get(n.split('@')[0], n) for n in grp})))
+            if len(rep.violations) > nv:
+                det = rep.violations[-1].get("detail") or {}
+                bad = {n.split("@")[0] for n in (det.get("violated") or [])} or {n.split("@")[0] for n in grp}
+                violated |= bad
+                rep.note(f"violation of {sorted(bad)} on path {tag}; these goal classes are not queried on further paths")
+            elif W.vischain and sum(1 for i in rep.items if i["verdict"] == "error") > ne:
+                # a candidate that the float code does not reproduce (the monotonicity contracts fix no magnitude values): reported once per class
+                violated |= {n.split("@")[0] for n in grp}
+                rep.note(f"candidate for {sorted(grp)} on path {tag} did not reproduce; these goal classes are not queried on further paths")
     rep.note(f"paths whose goals are all syntactically true: {trivial}")
     # ---- vacuity guards (when the code under test already violates the property a missing outcome class is reported as a note) ----------
     guard = rep.error if not (rep.violations or rep.known_hits) else (lambda label, why: rep.note(f"{label}: {why}"))
@@ -1298,6 +1666,16 @@ def obligations(tier):
         add(f"collect-{_name(sp)}", (lambda sp, n: lambda rep: o_scene(rep, "collect", [sp], n, expect_reasons=_expected_reasons(sp)))(sp, 1 if sp.optical else nbg),
             f"O1-O3 collectObservations, {_name(sp)}, 1 primary + {1 if sp.optical else nbg} background", 900 if tier != "quick" else 240)
         add(f"predict-{_name(sp)}", (lambda sp: lambda rep: o_scene(rep, "predict", [sp], 0))(sp), f"O4 predictObservation, {_name(sp)}", 240)
+    # limiting magnitude on the real Sun / target / sensor geometry (phase angle from the position vectors)
+    vis = ([("collect", False, "primary"), ("collect", True, "background"), ("predict", True, "primary")] if tier == "quick" else
+           [(m, s, "primary") for m in ("collect", "predict") for s in (False, True)] + [("collect", s, "background") for s in (False, True)])
+    for mode, space, ref in vis:
+        sp = Spec("optical", space, reduced=True, vischain=ref)
+        bg = ref == "background"
+        add(f"vismag-{mode}{'-background' if bg else ''}-{_name(sp)}",
+            (lambda sp, mode, bg: lambda rep: o_scene(rep, mode, [sp], int(bg), expect_reasons=_expected_reasons(sp) if mode == "collect" else None))(sp, mode, bg),
+            f"O1/O2/O4 limiting magnitude decided on the Sun/target/sensor positions: {'collectObservations' if mode == 'collect' else 'predictObservation'}, "
+            f"{_name(sp)}, full-sky masks, limit parametrised against the {'background target' if bg else 'primary target' if mode == 'collect' else 'estimate'}", 240)
     add("async-radar-ground", lambda rep: o_scene(rep, "async", [Spec("radar", False)], 1, expect_reasons=_expected_reasons(Spec("radar", False))),
         "O1-O3 through asyncExecuteTasking, 1 tasked radar + 1 background", 240)
     for kind in ("optical", "radar", "advradar"):
